@@ -180,8 +180,17 @@ impl ConcCheck {
 
 pub fn budget_for(ctx_tier: Tier, seed: u64) -> Budget {
     match ctx_tier {
-        Tier::Quick => Budget { single: 400, double: 60, coarse2: 200, tapes: 24, tape_seed: seed },
-        Tier::Thorough => Budget { single: 4000, double: 2500, coarse2: 2000, tapes: 200, tape_seed: seed },
+        Tier::Quick => Budget { single: 400, double: 60, coarse2: 200, tapes: 24, tape_seed: seed, triple: 0 },
+        Tier::Thorough => Budget { single: 4000, double: 2500, coarse2: 2000, tapes: 200, tape_seed: seed, triple: 0 },
+    }
+}
+
+/// budget of the helper family: few classic schedules, mostly sampled three-preemption schedules
+/// over the control words
+pub fn helpers_budget(tier: Tier, seed: u64) -> Budget {
+    match tier {
+        Tier::Quick => Budget { single: 120, double: 0, coarse2: 60, tapes: 12, tape_seed: seed, triple: 120 },
+        Tier::Thorough => Budget { single: 600, double: 200, coarse2: 400, tapes: 60, tape_seed: seed, triple: 1500 },
     }
 }
 
@@ -209,14 +218,18 @@ pub const C01: ConcCheck = ConcCheck {
 pub const C01L: ConcCheck = ConcCheck { sub: "lin-long", mix: Mix::Long, max_threads: 8, max_ops: 12, ..C01 };
 
 pub const C01M: ConcCheck = ConcCheck { sub: "lin-long-mixed", mix: Mix::LongMixed, max_threads: 6, max_ops: 10, ..C01 };
+pub const C01H: ConcCheck = ConcCheck { sub: "lin-helpers", mix: Mix::Helpers, max_threads: 4, max_ops: 3, ..C01 };
+pub const C01T: ConcCheck = ConcCheck { sub: "lin-treemove", mix: Mix::TreeMove, max_threads: 3, max_ops: 3, ..C01 };
 
 fn c01_shard(ctx: &Ctx, out: &mut ShardOut) {
     let pool = Pool::new();
     let n = ctx.share(ctx.by_tier(1600, 24_000)) as u32;
     C01.run(ctx, &pool, 1, n, &budget_for(ctx.tier, ctx.shard_seed(77)), out);
-    let lb = Budget { single: 0, double: 0, coarse2: 0, tapes: ctx.by_tier(24, 200) as usize, tape_seed: ctx.shard_seed(92) };
+    let lb = Budget { single: 0, double: 0, coarse2: 0, tapes: ctx.by_tier(24, 200) as usize, tape_seed: ctx.shard_seed(92), triple: 0 };
     C01L.run(ctx, &pool, 2, ctx.share(ctx.by_tier(128, 4_000)) as u32, &lb, out);
     C01M.run(ctx, &pool, 3, ctx.share(ctx.by_tier(160, 5_000)) as u32, &lb, out);
+    C01H.run(ctx, &pool, 5, ctx.share(ctx.by_tier(160, 3_000)) as u32, &helpers_budget(ctx.tier, ctx.shard_seed(94)), out);
+    C01T.run(ctx, &pool, 6, ctx.share(ctx.by_tier(200, 4_000)) as u32, &budget_for(ctx.tier, ctx.shard_seed(95)), out);
     c01_set_run(ctx, &pool, out);
 }
 
@@ -273,13 +286,19 @@ fn c01_set_replay(pool: &Pool, case: &Value) -> Result<(), CaseFail> {
 fn c01_replay(sub: &str, case: &Value) -> Result<(), CaseFail> {
     let pool = Pool::new();
     if sub == "lin-long" {
-        return C01L.replay(&pool, case, &Budget { single: 0, double: 0, coarse2: 0, tapes: 200, tape_seed: 1 });
+        return C01L.replay(&pool, case, &Budget { single: 0, double: 0, coarse2: 0, tapes: 200, tape_seed: 1, triple: 0 });
     }
     if sub == "lin-long-mixed" {
-        return C01M.replay(&pool, case, &Budget { single: 0, double: 0, coarse2: 0, tapes: 200, tape_seed: 1 });
+        return C01M.replay(&pool, case, &Budget { single: 0, double: 0, coarse2: 0, tapes: 200, tape_seed: 1, triple: 0 });
     }
     if sub == "lin-set" {
         return c01_set_replay(&pool, case);
+    }
+    if sub == "lin-helpers" {
+        return C01H.replay(&pool, case, &helpers_budget(Tier::Thorough, 1));
+    }
+    if sub == "lin-treemove" {
+        return C01T.replay(&pool, case, &budget_for(Tier::Thorough, 1));
     }
     C01.replay(&pool, case, &budget_for(Tier::Thorough, 1))
 }
@@ -293,6 +312,8 @@ fn c05c_judge(_prog: &Prog, out: &ConcOut) -> Result<(bool, Vec<(&'static str, u
 }
 pub const C05C: ConcCheck = ConcCheck { asked: "C05", sub: "conc", mix: Mix::Readers, max_threads: 3, max_ops: 3, opts: C01.opts, judge: c05c_judge, mk_probe: NO_PROBE };
 pub const C05R: ConcCheck = ConcCheck { asked: "C05", sub: "conc-resize", mix: Mix::Resize, max_threads: 3, max_ops: 3, opts: C01.opts, judge: c05c_judge, mk_probe: NO_PROBE };
+pub const C05H: ConcCheck = ConcCheck { asked: "C05", sub: "conc-helpers", mix: Mix::Helpers, max_threads: 4, max_ops: 3, opts: C01.opts, judge: c05c_judge, mk_probe: NO_PROBE };
+pub const C05T: ConcCheck = ConcCheck { asked: "C05", sub: "conc-treemove", mix: Mix::TreeMove, max_threads: 3, max_ops: 3, opts: C01.opts, judge: c05c_judge, mk_probe: NO_PROBE };
 pub const C05L: ConcCheck = ConcCheck { asked: "C05", sub: "conc-long", mix: Mix::Long, max_threads: 8, max_ops: 12, opts: C01.opts, judge: c05c_judge, mk_probe: NO_PROBE };
 
 fn c04c_judge(_prog: &Prog, out: &ConcOut) -> Result<(bool, Vec<(&'static str, u64)>), JudgeErr> {
@@ -320,7 +341,9 @@ pub const C04R: ConcCheck = ConcCheck { sub: "conc-clear", mix: Mix::Readers, ..
 pub const C04T: ConcCheck = ConcCheck { sub: "conc-retain", mix: Mix::Retain, ..C04C };
 pub const C04Z: ConcCheck = ConcCheck { sub: "conc-resize", mix: Mix::Resize, ..C04C };
 pub const C04D: ConcCheck = ConcCheck { sub: "conc-drain", mix: Mix::Drain, ..C04C };
-pub const C04_ALL: [&ConcCheck; 5] = [&C04C, &C04R, &C04T, &C04Z, &C04D];
+pub const C04H: ConcCheck = ConcCheck { sub: "conc-helpers", mix: Mix::Helpers, max_threads: 4, ..C04C };
+pub const C04M: ConcCheck = ConcCheck { sub: "conc-treemove", mix: Mix::TreeMove, ..C04C };
+pub const C04_ALL: [&ConcCheck; 7] = [&C04C, &C04R, &C04T, &C04Z, &C04D, &C04M, &C04H];
 
 /* ------------------------------- C08 ------------------------------- */
 
@@ -447,6 +470,8 @@ pub const C11: ConcCheck = ConcCheck {
 pub const C11B: ConcCheck = ConcCheck { sub: "term-perkey", mix: Mix::PerKey, ..C11 };
 pub const C11L: ConcCheck = ConcCheck { sub: "term-long", mix: Mix::Long, max_threads: 8, max_ops: 12, ..C11 };
 pub const C11C: ConcCheck = ConcCheck { sub: "term-resize", mix: Mix::Resize, ..C11 };
+pub const C11H: ConcCheck = ConcCheck { sub: "term-helpers", mix: Mix::Helpers, max_threads: 4, ..C11 };
+pub const C11T: ConcCheck = ConcCheck { sub: "term-treemove", mix: Mix::TreeMove, ..C11 };
 
 fn c11_shard(ctx: &Ctx, out: &mut ShardOut) {
     let pool = Pool::new();
@@ -454,8 +479,10 @@ fn c11_shard(ctx: &Ctx, out: &mut ShardOut) {
     C11.run(ctx, &pool, 11, ctx.share(ctx.by_tier(500, 6_000)) as u32, &b, out);
     C11B.run(ctx, &pool, 12, ctx.share(ctx.by_tier(500, 6_000)) as u32, &b, out);
     C11C.run(ctx, &pool, 15, ctx.share(ctx.by_tier(300, 4_000)) as u32, &b, out);
-    let lb = Budget { single: 0, double: 0, coarse2: 0, tapes: ctx.by_tier(24, 200) as usize, tape_seed: ctx.shard_seed(93) };
+    let lb = Budget { single: 0, double: 0, coarse2: 0, tapes: ctx.by_tier(24, 200) as usize, tape_seed: ctx.shard_seed(93), triple: 0 };
     C11L.run(ctx, &pool, 19, ctx.share(ctx.by_tier(96, 3_000)) as u32, &lb, out);
+    C11T.run(ctx, &pool, 20, ctx.share(ctx.by_tier(300, 4_000)) as u32, &b, out);
+    C11H.run(ctx, &pool, 21, ctx.share(ctx.by_tier(128, 2_000)) as u32, &helpers_budget(ctx.tier, ctx.shard_seed(96)), out);
 }
 fn c11_replay(sub: &str, case: &Value) -> Result<(), CaseFail> {
     let pool = Pool::new();
@@ -463,7 +490,9 @@ fn c11_replay(sub: &str, case: &Value) -> Result<(), CaseFail> {
     match sub {
         "term-perkey" => C11B.replay(&pool, case, &b),
         "term-resize" => C11C.replay(&pool, case, &b),
-        "term-long" => C11L.replay(&pool, case, &Budget { single: 0, double: 0, coarse2: 0, tapes: 200, tape_seed: 1 }),
+        "term-treemove" => C11T.replay(&pool, case, &b),
+        "term-helpers" => C11H.replay(&pool, case, &helpers_budget(Tier::Thorough, 1)),
+        "term-long" => C11L.replay(&pool, case, &Budget { single: 0, double: 0, coarse2: 0, tapes: 200, tape_seed: 1, triple: 0 }),
         _ => C11.replay(&pool, case, &b),
     }
 }
